@@ -127,6 +127,18 @@ fn truncate(s: &str) -> String {
     }
 }
 
+/// Absolute path of a tool (an absolute program path lets std use posix_spawn() even though PATH
+/// is set for the child; a relative one forces fork(), which is slow in a big process).
+fn tool(name: &str) -> PathBuf {
+    for dir in ["/usr/bin", "/bin", "/usr/local/bin"] {
+        let p = Path::new(dir).join(name);
+        if p.is_file() {
+            return p;
+        }
+    }
+    PathBuf::from(name)
+}
+
 fn hermetic(cmd: &mut Command) {
     cmd.env_clear();
     cmd.env("PATH", "/usr/local/bin:/usr/bin:/bin");
@@ -147,11 +159,12 @@ pub fn blockwatch(
     env: &[(&str, &str)],
     timeout_s: u32,
 ) -> CliRun {
-    let mut cmd = Command::new("timeout");
-    cmd.arg("-s").arg("KILL").arg(timeout_s.to_string()).arg(bin);
+    // `env -C` instead of `Command::current_dir`: the latter forces fork() instead of
+    // posix_spawn(), which is slow and serialised in a big multi-threaded process.
+    let mut cmd = Command::new(tool("timeout"));
+    cmd.arg("-s").arg("KILL").arg(timeout_s.to_string()).arg(tool("env")).arg("-C").arg(cwd).arg(bin);
     cmd.args(args);
     hermetic(&mut cmd);
-    cmd.current_dir(cwd);
     if stdin.is_none() {
         cmd.env("BLOCKWATCH_TERMINAL_MODE", "1");
     }
@@ -181,12 +194,12 @@ pub fn blockwatch(
 
 /// Runs git hermetically in `cwd`; returns (exit code, stdout, stderr).
 pub fn git(cwd: &Path, args: &[&str]) -> (i32, String, String) {
-    let mut cmd = Command::new("git");
+    let mut cmd = Command::new(tool("git"));
     hermetic(&mut cmd);
     cmd.env("GIT_AUTHOR_NAME", "v").env("GIT_AUTHOR_EMAIL", "v@v").env("GIT_COMMITTER_NAME", "v").env("GIT_COMMITTER_EMAIL", "v@v");
     cmd.args(["-c", "core.quotepath=off", "-c", "diff.noprefix=false", "-c", "diff.mnemonicprefix=false", "-c", "core.autocrlf=false"]);
+    cmd.arg("-C").arg(cwd);
     cmd.args(args);
-    cmd.current_dir(cwd);
     cmd.stdin(Stdio::null());
     let output = cmd.output().expect("run git");
     (
@@ -230,9 +243,78 @@ impl TreePair {
         args.extend_from_slice(&["a", "b"]);
         let (code, stdout, stderr) = git(&self.scratch.dir, &args);
         if code == 0 || code == 1 {
-            Ok(stdout)
+            Ok(fix_git_header(&stdout))
         } else {
             Err(format!("git diff failed ({code}): {stderr}"))
         }
+    }
+}
+
+/// With `--no-index`, git names an added file `diff --git b/P b/P` and a deleted one
+/// `diff --git a/P a/P`; inside a repository both read `diff --git a/P b/P`. Only that header line
+/// differs (a line starting with `diff --git ` can never be hunk content, which always starts with
+/// ` `, `+`, `-` or `\`).
+fn fix_git_header(diff: &str) -> String {
+    let mut out = String::with_capacity(diff.len());
+    for line in diff.split_inclusive('\n') {
+        let body = line.strip_suffix('\n').unwrap_or(line);
+        if let Some(rest) = body.strip_prefix("diff --git ") {
+            let half = rest.len() / 2;
+            if rest.len() % 2 == 1 && rest.as_bytes()[half] == b' ' && rest[..half] == rest[half + 1..] {
+                let path = &rest[2..half];
+                if rest.starts_with("b/") || rest.starts_with("a/") {
+                    out.push_str(&format!("diff --git a/{path} b/{path}"));
+                    out.push_str(&line[body.len()..]);
+                    continue;
+                }
+            }
+        }
+        out.push_str(line);
+    }
+    out
+}
+
+/// The diff git prints for a newly added text file (every line added). Emitted directly for the
+/// big spaces; `validate_new_file_diff` compares it with what real git prints.
+pub fn new_file_diff(path: &str, content: &str) -> String {
+    if content.is_empty() {
+        return format!("diff --git a/{path} b/{path}\nnew file mode 100644\nindex 0000000..e69de29\n");
+    }
+    let lines: Vec<&str> = content.split_inclusive('\n').collect();
+    // git appends a TAB to a file name that contains a space.
+    let tab = if path.contains(' ') { "\t" } else { "" };
+    let mut out = format!("diff --git a/{path} b/{path}\nnew file mode 100644\nindex 0000000..1111111\n--- /dev/null\n+++ b/{path}{tab}\n");
+    if lines.len() == 1 {
+        out.push_str("@@ -0,0 +1 @@\n");
+    } else {
+        out.push_str(&format!("@@ -0,0 +1,{} @@\n", lines.len()));
+    }
+    for l in &lines {
+        out.push('+');
+        out.push_str(l);
+    }
+    if !content.ends_with('\n') {
+        out.push_str("\n\\ No newline at end of file\n");
+    }
+    out
+}
+
+/// Compares `new_file_diff` with real git (ignoring the blob hash). Returns a description of the
+/// difference, if any.
+pub fn validate_new_file_diff(path: &str, content: &str) -> Option<String> {
+    let pair = TreePair::new("nfd");
+    pair.set_new(path, content);
+    let real = match pair.diff(3, &[]) {
+        Ok(d) => d,
+        Err(e) => return Some(e),
+    };
+    let normalise = |d: &str| -> String {
+        d.lines().map(|l| if l.starts_with("index ") { "index".to_string() } else { l.to_string() }).collect::<Vec<_>>().join("\n")
+    };
+    let ours = new_file_diff(path, content);
+    if normalise(&real) == normalise(&ours) {
+        None
+    } else {
+        Some(format!("git printed:\n{real}\nemitter printed:\n{ours}"))
     }
 }
